@@ -18,6 +18,7 @@ import (
 	mrand2 "math/rand/v2"
 	"reflect"
 	"runtime"
+	"strconv"
 	"strings"
 	"sync"
 	"time"
@@ -737,6 +738,7 @@ func typedAPI(repM, repU *Report, wM, wU *CaseWriter, r *rand.Rand, thorough boo
 		m = 3000
 	}
 	apiRecycledTargets(repU, wU, r, m)
+	apiLiteralCorners(repU, wU)
 }
 
 // ---- a func WITH parameters as an unmarshal target is called with the tuple's items ----
@@ -3348,5 +3350,59 @@ func apiDeprecationRace(rep *Report, rounds int) {
 	rep.count("api:deprecation-race-rounds")
 	if bad != "" {
 		rep.violate("C19", "concurrent-result-differs", bad, fmt.Sprintf("%d rounds of 4 goroutines unmarshalling strictly into one type with deprecated fields, memo cold", rounds))
+	}
+}
+
+// ---- literal tokens at the corners of strconv: every text x every scalar target, against strconv itself and the model ----
+func apiLiteralCorners(repU *Report, wU *CaseWriter) {
+	texts := []string{"+5", "-5", "5", "05", "1_000", "0x10", "0X1F", "0b11", "0o7", "0x1p-2", "1e400", "-1e400", "1e-400", "Inf", "+Inf", "-inf", "nan", "NaN", "infinity", " 5", "5 ", "", "+", "-", ".", ".5", "5.", "1e", "1e+3", "1E3", "00", "-0", "+0", "0.0", "-0.0",
+		"340282346638528859811704183484516925440", "340282356779733661637539395458142568448", "123456789012345678901234567890", "18446744073709551615", "18446744073709551616", "9223372036854775807", "9223372036854775808", "-9223372036854775808", "-9223372036854775809",
+		"255", "256", "-129", "127", "128", "65535", "65536", "true", "false", "1", "0", "t", "T", "TRUE", "True", "f", "F", "yes", "1.0", "１"}
+	reg := coqRegistry()
+	for _, t := range scalarTypes {
+		for _, s := range texts {
+			ts := []sb.Token{{Kind: sb.KindLiteral, Value: s}}
+			back, e := unmarshalInto(t, ts, nil)
+			repU.Evaluations++
+			repU.count("api:literal-corners")
+			desc := fmt.Sprintf("literal %q into %v", s, t)
+			// strconv itself
+			var wantErr error
+			want := reflect.New(t).Elem()
+			switch t.Kind() {
+			case reflect.Bool:
+				b, err := strconv.ParseBool(s)
+				wantErr = err
+				want.SetBool(b)
+			case reflect.Int, reflect.Int8, reflect.Int16, reflect.Int32, reflect.Int64:
+				i, err := strconv.ParseInt(s, 10, t.Bits())
+				wantErr = err
+				want.SetInt(i)
+			case reflect.Uint, reflect.Uint8, reflect.Uint16, reflect.Uint32, reflect.Uint64, reflect.Uintptr:
+				u, err := strconv.ParseUint(s, 10, t.Bits())
+				wantErr = err
+				want.SetUint(u)
+			case reflect.Float32, reflect.Float64:
+				f, err := strconv.ParseFloat(s, t.Bits())
+				wantErr = err
+				want.SetFloat(f)
+			case reflect.String:
+				want.SetString(s)
+			}
+			if classOf(e) == "EPanic" {
+				repU.violate("C05", "unmarshal-panic", fmt.Sprintf("%v", e), desc)
+				continue
+			}
+			if (wantErr == nil) != (e == nil) || (e == nil && !equivValues(want, back)) {
+				what := fmt.Sprintf("sb: %v %v; strconv: %v %v", safeFormat(back), e, safeFormat(want), wantErr)
+				repU.violate("C20", "differs-from-encoding-json", "a literal token is converted as strconv converts its text for the target's kind and width: "+what, desc)
+				repU.violate("C05", "literal-conversion", what, desc)
+			}
+			if e != nil && classOf(e) != "EParse" {
+				repU.violate("C05", "literal-conversion", fmt.Sprintf("a text strconv rejects is reported as %s, not as the strconv error", classOf(e)), desc)
+			}
+			tyS := coqTy(t)
+			wU.add(fmt.Sprintf("UnmarshalCase %s %s %s %s %s %s %s", coqOpts(false, false, false), reg, tyS, "(zero "+tyS+")", coqTokens(ts), floatTable(ts), uobs(back, e)), desc, true)
+		}
 	}
 }
